@@ -45,6 +45,20 @@ func genFactorAt(g *vlib.G) {
 			}
 			return &f
 		}},
+		{"BandCholesky(padded stride)", "spdband", func(a matrix) mat.Matrix {
+			var f mat.BandCholesky
+			if !f.Factorize(buildSymBandX(k1, 2, false)(a).m.(mat.SymBanded)) {
+				return nil
+			}
+			return &f
+		}},
+		{"BandCholesky(user RawSymBand)", "spdband", func(a matrix) mat.Matrix {
+			var f mat.BandCholesky
+			if !f.Factorize(buildSymBandX(k1, 2, true)(a).m.(mat.SymBanded)) {
+				return nil
+			}
+			return &f
+		}},
 		{"EigenSym", "spd", func(a matrix) mat.Matrix {
 			var f mat.EigenSym
 			s, _ := symOf(a, false)
